@@ -7,7 +7,7 @@ after every operation.  Faults: chunking, preload, drop, halt, dup, burst, off-g
 from __future__ import annotations
 
 from .. import planlib, refmodels, world
-from ..catalogue import mk_candles
+from ..catalogue import encode, mk_candles
 from ..subjects import ROUTES, Neighbours, build_route, sample_neighbours
 from ..core import Discard, LibError, Violation, run_property
 from ..util import snap_cores, sub_rng, tf_seconds
@@ -98,6 +98,17 @@ def plan(seed, subbatch):
     ops = [{"op": "new", "preload": [list(r) for r in rows[:k]]}]
     ops += world.schedule(feed, rows[k:], sizes, extras)
     fired["preload_%s" % ("none" if k == 0 else "one" if k == 1 else "all" if k == len(rows) else "some")] += 1
+    if subbatch == "faulty":
+        form = sub_rng(seed, "input-form")
+        for op in ops:
+            if op["op"] != "append" or not op.get("candles"):
+                continue
+            # the same candles as dicts or lists; and now and then a whole chunk inside ONE second (legal duplicates)
+            op["enc"] = form.choice(("candles", "candles", "candles", "dicts", "lists"))
+            if len(op["candles"]) >= 2 and form.random() < 0.06:
+                t0 = op["candles"][0][0]
+                op["candles"] = [[t0] + list(r[1:]) for r in op["candles"]]
+                fired["chunk_within_one_second"] += 1
     lifespan = None
     if route in ("manager", "indicator", "hexital_level") and sub_rng(seed, "lifespan").random() < 0.1:
         # a lifespan next to the collapsing timeframe: the surviving buckets are still the full resampled ones
@@ -156,7 +167,7 @@ def _execute(trace):
                     n_appends += 1 if rows else 0
                     delivered.extend(rows)
                     neigh.feed(rows)
-                    run.call(len(delivered), subject.append, mk_candles(rows))
+                    run.call(len(delivered), subject.append, encode(rows, op.get("enc") or "candles") if rows else [])
                 elif kind == "recollapse":
                     for _ in range(op.get("times", 1)):
                         run.call(len(delivered), manager.collapse_candles)
